@@ -126,6 +126,8 @@ UnitText(n, s, q, u) ==
   ELSE IF q = 0 THEN "-" \o AbsText(n, s) \o Zeros(u)
   ELSE IF IsZeroT(SuccN(n, s), SuccS(n, s)) THEN "-" \o ToString(Pow10(u) - q)
   ELSE "-" \o AbsText(SuccN(n, s), SuccS(n, s)) \o Pad(Pow10(u) - q, u)
+\* decimal text of n*86400 + s + 1/2 (exactly representable in binary floating point)
+HalfText(n, s) == IF n >= 0 THEN NatText(n, s) \o ".5" ELSE "-" \o AbsText(SuccN(n, s), SuccS(n, s)) \o ".5"
 \* the spellings of an integer-valued number a function documented to return "floating-point seconds" may print
 \* (the help texts print such results both ways: "= 14400" and "= 1440768801.000000")
 NumSpellings(t) == {t, t \o ".000000"}
@@ -257,8 +259,51 @@ OffsetText(off) ==      \* off in minutes east of Greenwich
 ShiftN(n, s, off) == n + ((s + off * 60) \div 86400)
 ShiftS(n, s, off) == (s + off * 60) % 86400
 
+(***************************************************************************)
+(* 6. datediff(t1, t2, unit): "like the spreadsheet DATEDIF function ...     *)
+(*    "y", "m", or "d" for complete years, complete months, or days between *)
+(*    the two dates, "ym", "yd", "md" for months ignoring years, days        *)
+(*    ignoring years, days ignoring months and years (case-insensitive).    *)
+(*    Differences are computed on calendar dates in GMT, ignoring any       *)
+(*    time-of-day parts. The result is negative if the first date is after  *)
+(*    the second."  DateDiff gives the SET of admitted answers: DATEDIF is   *)
+(*    ambiguous where a month end or 29 February is involved, and the       *)
+(*    reference does not settle those cases.                                *)
+(***************************************************************************)
+LastOfMonth(c) == c.d = DaysInMonth(c.y, c.m)
+MonthDayLeq(a, b) == a.m < b.m \/ (a.m = b.m /\ a.d <= b.d)
+\* complete months from date a to date b (a not after b): the month count, less one if b's day of the month has not
+\* reached a's; if b is the last day of a month too short to reach it (31 Jan -> 28 Feb) both readings are admitted
+MonthsBetween(a, b) ==
+  LET raw == (b.y - a.y) * 12 + (b.m - a.m) IN
+  IF b.d >= a.d THEN {raw} ELSE IF LastOfMonth(b) THEN {raw - 1, raw} ELSE {raw - 1}
+\* "days ignoring years": from a's month and day, put in the last year where that is not after b, to b (the reference:
+\* 2020-01-01 .. 2023-05-15 is 134 days, 2001-06-01 .. 2002-08-15 is 75); a 29 February put in a common year is
+\* 28 February or 1 March
+YearDayAnchors(a, b) ==
+  LET ya == IF MonthDayLeq(a, b) THEN b.y ELSE b.y - 1 IN
+  IF a.m = 2 /\ a.d = 29 /\ ~IsLeap(ya) THEN {DaysFromCivil(ya, 2, 28), DaysFromCivil(ya, 3, 1)} ELSE {DaysFromCivil(ya, a.m, a.d)}
+DateDiffFwd(u, n1, n2) ==        \* n1 <= n2
+  LET a == CivilFromDays(n1)
+      b == CivilFromDays(n2)
+  IN CASE u = "d"  -> {n2 - n1}
+       [] u = "m"  -> MonthsBetween(a, b)
+       [] u = "y"  -> {k \div 12 : k \in MonthsBetween(a, b)}
+       [] u = "ym" -> {k % 12 : k \in MonthsBetween(a, b)}
+       [] u = "md" -> (IF b.d >= a.d THEN {b.d - a.d} ELSE 0..30)      \* which month's length is borrowed is not said
+       [] u = "yd" -> {n2 - x : x \in {y \in YearDayAnchors(a, b) : y <= n2}}
+\* a class name for findings: does the later date's day of the month reach the earlier date's?
+DiffClass(n1, n2) ==
+  LET a == CivilFromDays(IF n1 <= n2 THEN n1 ELSE n2)
+      b == CivilFromDays(IF n1 <= n2 THEN n2 ELSE n1)
+  IN IF b.d >= a.d THEN "day-of-month-reached" ELSE "day-of-month-not-reached"
+DateDiff(u, n1, n2) == IF n1 <= n2 THEN DateDiffFwd(u, n1, n2) ELSE {-x : x \in DateDiffFwd(u, n2, n1)}
+
 \* which instants fit signed 64-bit nanoseconds (the domain of the nsec / strfntime / strpntime family)
 \* 2^63 ns = 106751 days 23:47:16.854775808
 InNsRange(n, s) == (n > -106752 /\ n < 106751) \/ (n = 106751 /\ s < 85636) \/ (n = -106752 /\ s >= 764)
-RangeClass(n, s) == IF InNsRange(n, s) THEN "ns64" ELSE "beyond-ns64"
+\* classes of instants, only used to describe a finding: within 2^53 / 5^9 seconds of the epoch (1823-11-12 .. 2116-02-20: the
+\* nanosecond count is exact as a double), within signed 64-bit nanoseconds (1677-09-21 .. 2262-04-11), beyond
+RangeClass(n, s) == IF n > -53375 /\ n < 53375 THEN "near-epoch" ELSE IF InNsRange(n, s) THEN "ns64" ELSE "beyond-ns64"
+FracClass(f) == IF f = 0 THEN "whole-second" ELSE "sub-second"
 =============================================================================
